@@ -477,6 +477,37 @@ def dsge_wrapped_union_keys(h: Harness, rng):
                 cur = m
 
 
+def stack_wrapped_fields(h: Harness, rng):
+    """the stack representation assembles tuples, lists and unions from their component stacks: on a fixed grammar with such fields
+    (plain base types inside, so that the stack machine can fill them) every mapped program is structurally well-typed"""
+    from linear import Stack, safe
+    from geneticengine.random.sources import NativeRandomSource
+    C = gram.ClassSpec
+    spec = gram.Spec([C("A0", True, None), C("Leaf", False, 0, [("k", "int")]), C("Pair", False, 0, [("p", ("tuple", "int", "bool"))]),
+                      C("Both", False, 0, [("t", ("tuple", ("cls", 0), "int")), ("xs", ("list", "int"))]),
+                      C("Either", False, 0, [("u", ("union", ("cls", 1), "bool"))])], 0, [1, 2, 3, 4])
+    b = gram.build(spec)
+    g = b.extract()
+    line_spec = gram.spec_sx(spec)
+    r = NativeRandomSource(rng.randrange(10**6))
+    rep = Stack(g, gene_length=256)
+    got = 0
+    for trial in range(h.n(80, 400)):
+        geno = rep.create_genotype(r)
+        st, p = safe(lambda: rep.genotype_to_phenotype(geno))
+        if st == "err" and p.startswith("foreign"):
+            h.fail("Stack.genotype_to_phenotype", "foreign-error", f"mapping failed with {p} instead of the library's error", [sx(line_spec), trial])
+            continue
+        if st != "ok":
+            continue
+        got += 1
+        c = gram.canon(p, b)
+        h.seen(f"stack-wrapped:{sx(c)[:60]}", nontrivial="(t " in sx(c) or "(l " in sx(c))
+        h.holds("Stack.genotype_to_phenotype", "ill-typed-program", ["prop_wt_struct", line_spec, c],
+                f"mapped program is not well-typed: {sx(c)[:300]}", [sx(line_spec), trial])
+    h.count("stack-wrapped-fields:programs", got)
+
+
 def corpus():
     """fixed witnesses of type shapes the generator only meets by luck: size-refined lists whose elements are lists /
     refined values / tuples / unions, nested wrappers"""
@@ -510,6 +541,7 @@ def run(h: Harness):
     boundary_genes(h, rng)
     cooperative_gp(h, rng)
     dsge_wrapped_union_keys(h, rng)
+    stack_wrapped_fields(h, rng)
     retarget_scenario(h, rng)
     for spec in corpus():
         b = gram.build(spec)
